@@ -40,4 +40,44 @@ theorem cook_independent_of_others (cook : Bundle Item → α) (b : String) (ops
 example : ((Registry.empty (Item := Nat)).replay [("a", 1), ("b", 2), ("a", 3)]) "a" = { items := [1, 3] } := by
   simp [Registry.replay, Registry.register, Registry.empty]
 
+/-! ### implementations registered as a class (definitions: Impl/Cache.lean `Given`, `Stored`, `storeAll`) -/
+
+theorem storeAll_getElem (ops : List (String × Given)) (k i : Nat) :
+    (storeAll k ops)[i]? = (ops[i]?).map (fun p => (p.1, store (k + i) p.2)) := by
+  induction ops generalizing k i with
+  | nil => simp [storeAll]
+  | cons op ops ih =>
+    obtain ⟨n, g⟩ := op
+    cases i with
+    | zero => simp [storeAll]
+    | succ j =>
+      simp only [storeAll, List.getElem?_cons_succ, ih]
+      cases ops[j]? with
+      | none => rfl
+      | some y =>
+        have : k + 1 + j = k + (j + 1) := by omega
+        simp [this]
+
+/-- one class handed over by two different registrations — under two schema names, or twice under one — never ends
+    up as ONE shared object: the two stored implementations differ (so their state does) -/
+theorem class_registrations_get_own_instances (ops : List (String × Given)) (i j : Nat) (hij : i ≠ j)
+    (ni nj : String) (c : Nat) (hi : ops[i]? = some (ni, .cls c)) (hj : ops[j]? = some (nj, .cls c))
+    (si sj : String × Stored) (h1 : (storeAll 0 ops)[i]? = some si) (h2 : (storeAll 0 ops)[j]? = some sj) :
+    si.2 ≠ sj.2 := by
+  rw [storeAll_getElem, hi] at h1
+  rw [storeAll_getElem, hj] at h2
+  simp at h1 h2
+  subst h1; subst h2
+  simp [store]; omega
+
+/-- … and each name's engine sees, after any interleaved history, exactly its own stored objects in its own order -/
+theorem stored_projection (b : String) (ops : List (String × Given)) :
+    ((Registry.empty.replay (storeAll 0 ops)) b)
+      = ((Registry.empty.replay ((storeAll 0 ops).filter (fun op => op.1 = b))) b) :=
+  replay_projection b (storeAll 0 ops) Registry.empty Registry.empty rfl
+
+/-- non-vacuity: one class under two names -/
+example : storeAll 0 [("a", .cls 7), ("b", .cls 7), ("a", .inst 1)]
+    = [("a", .fresh 0 7), ("b", .fresh 1 7), ("a", .given 1)] := by decide
+
 end Tart.C17
